@@ -1,5 +1,5 @@
 SPECIFICATION Spec
 CONSTANTS
-  MaxChars = 6
-INVARIANTS Emit RoundTrip
+  Depth = 2
+INVARIANTS Emit
 CHECK_DEADLOCK FALSE
